@@ -128,6 +128,9 @@ pub fn individual_and<S: Scheme>(
     sponge: &mut TraceSponge<S::F>,
     rng: &mut SimRng,
 ) -> (bool, String) {
+    if let Some(r) = S::flat_individual_and(vk, comms, qs, evals, proof) {
+        return r;
+    }
     let groups = group(qs);
     let proofs: Vec<Proof<S>> = proof.clone().into();
     if proofs.len() != groups.len() {
